@@ -80,6 +80,19 @@ CHECKS["C05"] = ("HttpProtocol.tla, TraceHttpProtocol.tla",
     "Trusted: TLC, harness/protocol.py (turns raw messages into typed event records), servers.py.",
     "DESIGN.md 5 C05")
 
+CHECKS["C06"] = ("SseWsgi.tla, StreamAsgi.tla, TraceStreamAsgi.tla",
+    "WSGI: TLC exhaustive model check of relay thread / consumer generator / server over a one-slot queue (NoStuck, ClosedOnce, "
+    "NoLeak, Delivered, RaisedIsReported; liveness Terminates under weak fairness); every transition forced onto the real "
+    "threads by a cooperative scheduler, each schedule then completed fairly and judged; witness Fixed=FALSE must deadlock. "
+    "ASGI: timing scenarios run under a virtual-time loop, event logs validated by TLC against the timed automaton StreamAsgi.tla",
+    "Every interleaving of producer, relay, consumer and close() at the grain of queue/future/yield operations for generators of "
+    "0..2 (thorough 3) items with an exception at any item; ASGI: all item-delay / ping / disconnect-tick / exception-point / "
+    "send-cost combinations in the bounds, with the return deadline, single cleanup, no pending task and in-order delivery "
+    "checked per event.",
+    "Trusted: TLC, harness/sched.py (threads move only at its control points), harness/vloop.py, asyncio's FIFO ready queue. "
+    "The ASGI model is a property automaton over observed events, not an interleaving model of the tasks.",
+    "DESIGN.md 5 C06")
+
 NOT_YET = {}
 
 ALL = ["C%02d" % i for i in range(1, 21)]
